@@ -405,9 +405,13 @@ def runHandler (name : String) (ctx : Ctx) : P (List UInt8) :=
     else handlerBody name ctx
   | none => P.panic
 
+/-- does the arm `Type::X | Type::Y … [if class == Class::C] => …` match `(class, type)`? -/
+def armMatches (cls ty : Nat) (a : List Nat × Option Nat × String) : Bool :=
+  a.1.contains ty && (match a.2.1 with | some g => g == cls | none => true)
+
 /-- first arm of the generated `parse_rdata` table that matches `(class, type)` -/
 def findArm (cls ty : Nat) : Option String :=
-  match Gen.parseRdataArms.find? (fun a => a.1.contains ty && (match a.2.1 with | some g => g == cls | none => true)) with
+  match Gen.parseRdataArms.find? (armMatches cls ty) with
   | some a => some a.2.2
   | none => none
 
